@@ -43,6 +43,36 @@ type ins struct {
 	s     string
 }
 
+// clause: the init and post statements of for/if/switch headers
+var clause = map[ast.Stmt]bool{}
+
+func collectClauses(f ast.Node) {
+	ast.Inspect(f, func(n ast.Node) bool {
+		switch s := n.(type) {
+		case *ast.ForStmt:
+			if s.Init != nil {
+				clause[s.Init] = true
+			}
+			if s.Post != nil {
+				clause[s.Post] = true
+			}
+		case *ast.IfStmt:
+			if s.Init != nil {
+				clause[s.Init] = true
+			}
+		case *ast.SwitchStmt:
+			if s.Init != nil {
+				clause[s.Init] = true
+			}
+		case *ast.TypeSwitchStmt:
+			if s.Init != nil {
+				clause[s.Init] = true
+			}
+		}
+		return true
+	})
+}
+
 func main() {
 	in := flag.String("in", "", "")
 	out := flag.String("out", "", "")
@@ -64,6 +94,7 @@ func main() {
 	if err != nil {
 		panic(err)
 	}
+	collectClauses(f)
 	var onlyRe, funcRe *regexp.Regexp
 	if *only != "" {
 		onlyRe = regexp.MustCompile(*only)
@@ -206,6 +237,9 @@ func main() {
 				}
 			}
 			match := func(n ast.Node) bool { return onlyRe == nil || onlyRe.MatchString(text(n)) }
+			if st, ok := n.(ast.Stmt); ok && clause[st] {
+				return true // init/post statement of a for, if or switch header: cannot be wrapped in an if
+			}
 			switch s := n.(type) {
 			case *ast.ExprStmt:
 				if op["sdl"] && match(s) {
